@@ -23,6 +23,13 @@ type reslibCase struct {
 	Loader string `json:"loader"` // table / super: index loader ("" default | disk | map | skiplist | slice)
 	Hash   string `json:"hash"`   // "" (verify on load) | read (verify on read)
 	Damage string `json:"damage"` // tablefail: "trunc" | "flip" - the open is expected to fail and must not keep anything open
+	// kind "scripts": interleaved life cycles of several scanners on ONE reader (behaviours of Scanners.tla), one reader per script
+	Scripts [][]scanEv `json:"scripts"`
+}
+
+type scanEv struct {
+	A string `json:"a"` // new | step | drain | close
+	S int    `json:"s"`
 }
 
 type reslibIn struct {
@@ -139,6 +146,42 @@ func runResLib(args []string) error {
 			obs(ci, false, 2*ntab+2*len(c.Ops)*ntab, "after scans")
 			rd.Close()
 			obs(ci, true, 0, "closed")
+		case "scripts":
+			d := filepath.Join(base, "t0")
+			if err := mkTable(d, n); err != nil {
+				return err
+			}
+			for si, script := range c.Scripts {
+				rd, err := sstables.NewSSTableReader(sstables.ReadBasePath(d), sstables.ReadWithKeyComparator(cmp))
+				if err != nil {
+					return err
+				}
+				its := map[int]sstables.SSTableIteratorI{}
+				for _, e := range script {
+					switch e.A {
+					case "new":
+						if it, err := rd.Scan(); err == nil {
+							its[e.S] = it
+						}
+					case "step":
+						if it := its[e.S]; it != nil {
+							it.Next()
+						}
+					case "drain":
+						if it := its[e.S]; it != nil {
+							for i := 0; i < 1<<20; i++ {
+								if _, _, err := it.Next(); err != nil {
+									break
+								}
+							}
+						}
+					case "close":
+						obs(ci, false, 2+2*len(its), fmt.Sprintf("script %d before Close", si))
+						rd.Close()
+					}
+				}
+				obs(ci, true, 0, fmt.Sprintf("script %d closed", si))
+			}
 		case "tablefail":
 			// a table that cannot be opened (damaged data file): the failed open must not keep descriptors or mappings
 			d := filepath.Join(base, "t0")
